@@ -460,6 +460,23 @@ def threads_part_body(res, rng, big):
         else:
             break
     ep.c.take()
+    # one frame with a body beyond every SECS-I size (8 MB; E37 allows up to 2^32-11) between two small ones: encoded as the E37 frame by the
+    # real classes (no driver round for 16 MB of hex: the independent reference frame is the oracle) and delivered with its neighbours
+    big_body = bytes(8_000_000 + rng.range(0, 999))
+    bvals = [rng.range(1, 2**32 - 1), 0, 6, 11, 0, 0, 0]
+    big_frame = M.ref_frame(*bvals, big_body)
+    enc = M.impl(lambda: hlib.hashlib.sha256(HsmsMessage(M.mk_header(bvals), big_body).blocks[0].encode()).hexdigest())
+    res.count(("big-encode", len(big_body)), sample={"op": "HsmsMessage.encode of an 8 MB body", "body_len": len(big_body), "result": enc[:24]})
+    if enc != "ok " + hlib.hashlib.sha256(big_frame).hexdigest():
+        res.violate("frame-layout", "an HSMS message with an 8 MB body (E37 allows 2^32-11 bytes) is not encoded as the E37 frame",
+                    {"kind": "big-frame", "body_len": len(big_body), "fields": bvals}, "sha256 of the reference frame", enc[:80])
+    small = gen_valid_frames(rng, 2)
+    bframes = [small[0], (bvals, big_body, big_frame), small[1]]
+    stream = b"".join(f[2] for f in bframes)
+    segs = [stream[i:i + 1024 * 1024] for i in range(0, len(stream), 1024 * 1024)]
+    check_delivery(res, ep, bframes, segs, "8 MB frame between two small ones", {"kind": "big-frame", "frames": None, "body_len": len(big_body), "segments": len(segs)})
+    res.count(("big-frame", len(big_body)), sample={"op": "8 MB frame in the stream", "body_len": len(big_body), "segments": len(segs)})
+    ep.c.take()
     # nothing extra may show up afterwards (duplicates delivered late)
     total = len(ep.got)
     time.sleep(0.1)
